@@ -358,6 +358,8 @@ class CPreProcessor:
                 # Ensure end of line!
                 if not self.at_line_start:
                     self.error("Expected end of line", loc=self.token.loc)
+            elif token.typ == "ID" and token.val == "_Pragma":
+                self.handle_pragma_operator(token)
             else:
                 # This is not a directive, but normal text:
                 yield token
@@ -989,6 +991,23 @@ class CPreProcessor:
         self.logger.warning("Ignoring pragma: %s", message)
         new_line_token = CToken("WS", "", "", True, directive_token.loc)
         yield new_line_token
+
+    def handle_pragma_operator(self, pragma_token):
+        """Process the `_Pragma("...")` operator (C99 6.10.9).
+
+        The operator is executed like a `#pragma` directive and is removed
+        from the token sequence.
+        """
+        self.consume("(")
+        string_token = self.consume("STRING")
+        self.consume(")")
+
+        # Destringize: remove L prefix, the quotes and the escapes:
+        message = string_token.val
+        if message.startswith("L"):
+            message = message[1:]
+        message = message[1:-1].replace('\\"', '"').replace("\\\\", "\\")
+        self.logger.warning("Ignoring pragma: %s", message)
 
     def tokens_to_string(self, tokens):
         """Create a text from the given tokens"""
